@@ -697,6 +697,31 @@ func runC20(r *core.Run) {
 			return core.OK(fmt.Sprint("conflict=", conflict), true)
 		})
 
+	core.Clause(r, "gostring-all-bytes", core.Opts{Rule: "for every byte value b one matrix with the pairs (b,b), (b,'A'), ('A',b), (b,b^0x20), (b^0x80,b): GoString evaluates back to the matrix, keys ascending; non-trivial = all"},
+		func(emit func(c20Go) bool) {
+			for b := 0; b < 256; b++ {
+				keys := map[[2]int]bool{{b, b}: true, {b, 'A'}: true, {'A', b}: true, {b, b ^ 0x20}: true, {b ^ 0x80, b}: true}
+				var ks [][2]int
+				var sc []string
+				for k := range keys {
+					ks = append(ks, k)
+				}
+				sort.Slice(ks, func(i, j int) bool { return ks[i][0]*256+ks[i][1] > ks[j][0]*256+ks[j][1] })
+				for i := range ks {
+					sc = append(sc, []string{"0.1", "-2.5", "3", "1e-07", "-0"}[i%5])
+				}
+				if !emit(c20Go{ks, sc}) {
+					return
+				}
+			}
+		},
+		func(c c20Go) core.Outcome {
+			if f := checkGoString(c.matrix()); f != "" {
+				return core.Failf("%s", f)
+			}
+			return core.Outcome{Class: "ok", Nontrivial: true}
+		})
+
 	gbytes := []int{0, '\'', '\\', 0x7f, 0x80, 0xfe, 255, 'A', '"', '\n'}
 	gscores := []string{"0.1", "-2.5", "1e+21", "1e-07", "0", "-0", "3", "123456789.125"}
 	core.Clause(r, "gostring", core.Opts{Rule: "every 1-pair and 2-pair matrix over the byte menu {0,',\\,0x7f,0x80,0xfe,Gap,A,\",LF} with every score of the menu, all 3^9 partial matrices, and one matrix with all 100 pairs: the output parsed with go/parser and evaluated with go/constant yields the same map, one entry per pair, keys strictly ascending bytewise, and the genncbi composition passes go/format; non-trivial = all non-empty"},
